@@ -479,6 +479,7 @@ type Options struct {
 	Cycles     bool // allow back edges
 	NastyNames bool
 	HTTP       bool    // allow an http-hosted document
+	Twins      bool    // documents sharing their path with the root on other hosts / schemes, prefix-named documents
 	Spellings  bool    // vary the spelling of references (./, absolute, …)
 	NestedPtrs bool    // references to nested pointer targets
 	RefP       float64 // probability that a sub-schema position holds a $ref
@@ -492,6 +493,12 @@ type node struct {
 }
 
 var docLayouts = []string{"file:///v/r/root.json", "file:///v/r/other.json", "file:///v/r/sub/s.json", "file:///v/p.json", "file:///v/q/o.json", "http://h.example/api/x.json"}
+
+// twinLayouts: documents that share their URL path with another document (other host, other scheme), or whose
+// URL is a textual prefix / extension of another's: code that identifies documents by path alone or by string
+// prefix confuses them.
+var twinLayouts = []string{"file:///v/r/root.json", "http://h.example/v/r/root.json", "https://h.example/v/r/root.json", "http://mirror.example/v/r/root.json",
+	"file:///v/r/root.jsonx", "file:///v/r/root.json.d/s.json", "http://h.example/v/r/root.json2"}
 
 var nastyDefNames = []string{"a/b", "a~b", "a%20b", "a b", "é", "{x}", "a#b", "a?b", "x.y", "a%b"}
 
@@ -544,16 +551,20 @@ func Generate(r *rand.Rand, o Options) *World {
 	if nd < 1 {
 		nd = 1
 	}
-	urls := []string{docLayouts[0]}
-	perm := r.Perm(len(docLayouts) - 1)
+	layouts := docLayouts
+	if o.Twins {
+		layouts = twinLayouts
+	}
+	urls := []string{layouts[0]}
+	perm := r.Perm(len(layouts) - 1)
 	for _, i := range perm {
 		if len(urls) >= nd {
 			break
 		}
-		if !o.HTTP && strings.HasPrefix(docLayouts[i+1], "http") {
+		if !o.HTTP && !o.Twins && strings.HasPrefix(layouts[i+1], "http") {
 			continue
 		}
-		urls = append(urls, docLayouts[i+1])
+		urls = append(urls, layouts[i+1])
 	}
 	nd = len(urls)
 	// nodes
